@@ -254,6 +254,25 @@ func (RoundMonitor) Post(e *Explorer, before, w *World, pre interface{}, ev *Eve
 		e.Violate(w, oracle, "round|"+oracle, fmt.Sprintf("%s (after %s)", detail, ev.Label))
 	}
 	h := uint64(before.Height())
+	// a window that is opened or re-opened (first report, tip on an expired round, rotation onto a tipped round) runs for
+	// the round's own registered number of blocks from the height at which that happened
+	{
+		oldExp := map[string]uint64{}
+		for _, q := range p.queries {
+			oldExp[fmt.Sprintf("%x/%d", q.QueryId, q.Meta.Id)] = q.Meta.Expiration
+		}
+		for _, q := range w.Queries() {
+			k := fmt.Sprintf("%x/%d", q.QueryId, q.Meta.Id)
+			if oe, had := oldExp[k]; had && oe == q.Meta.Expiration {
+				continue
+			}
+			e.RC.Count("windows_opened", 1)
+			if want := h + q.Meta.RegistrySpecBlockWindow; q.Meta.Expiration != want {
+				fail("window-length", fmt.Sprintf("round %d of %x.. (%s, window %d) was (re)opened at height %d with expiry %d, its own window ends at %d",
+					q.Meta.Id, q.QueryId[:4], q.Meta.QueryType, q.Meta.RegistrySpecBlockWindow, h, q.Meta.Expiration, want))
+			}
+		}
+	}
 	if out.Kind == "tx-ok" && ev.Msgs != nil {
 		msgs := ev.Msgs(before)
 		for _, m := range msgs {
